@@ -96,17 +96,25 @@ def run(rep, tier):
     for v in sorted(isa.TABLE):
         d = isa.TABLE[v]
         outs = lm.run(v)
-        live = []
+        live, dead = [], []
         for _val, s in outs:
             if any(e[0] == "call" and isinstance(e[1], str) and e[1].startswith("core::panicking") for e in s.effects):
+                dead.append(s)
                 continue
             live.append(s)
-        if d["kind"] == "call":
-            # call kinds 0 and 1 are in the precondition; other kinds may panic (D4)
-            pass
-        ok = bool(live)
+        # a supported opcode is disassembled for every value of its other fields: no path of its arm may end in the
+        # panicking catch-all (a match guard on the immediate, say); only call kinds other than 0 / 1 are outside the
+        # property's precondition
+        from props.c05 import incompatible
+        bad_dead = []
+        for s in dead:
+            cs = [models.canon(c, pcn, extra) for c in s.conds]
+            if d["kind"] == "call" and incompatible(cs, [T.cmp("eq", 8, ("v", "src", 8), T.K(8, 0))]) and incompatible(cs, [T.cmp("eq", 8, ("v", "src", 8), T.K(8, 1))]):
+                continue
+            bad_dead.append([T.show(c)[:60] for c in cs][-2:])
+        ok = bool(live) and not bad_dead
         rep.ob(ra, "opc=%#04x" % v, ok, "disassembler arm for supported opcode %#04x" % v,
-               expected="a non-panicking arm", found="%d paths, %d live" % (len(outs), len(live)))
+               expected="a non-panicking arm for every value of the other fields", found="%d paths, %d live%s" % (len(outs), len(live), ("; panics under %s" % bad_dead[:2]) if bad_dead else ""))
         if not ok:
             continue
         good = True
@@ -154,7 +162,8 @@ def run(rep, tier):
     rep.analysed(*sorted(reach))
     R = re.escape(root)
     rows = [
-        Row("len-multiple", R, r"^panic!panic@$", "D4", "precondition: the input consists of whole instructions"),
+        Row("len-multiple", R, r"^panic!(panic|assert)@$", "D4", "precondition: the input consists of whole instructions "
+            "(that this is the only panic outside the per-instruction loop, taken exactly when 8 does not divide the length, is R15.e)", cites=("R15.e",)),
         Row("unknown-opcode", R, r"^panic!panic@u8!in\[\d+ values\]$", "D4", "precondition: supported opcodes only"),
         Row("call-kind", R, r"^panic!panic@u8=133;u8!in\[0,1\]$", "D4", "precondition: call kinds 0/1 only"),
         Row("fetch", R, r"^precond:ebpf::get_insn<-", "D4",
@@ -162,6 +171,22 @@ def run(rep, tier):
     ]
     stats = sites_to_obligations(rep, rd, sites, rows)
     rep.info("site_stats", stats)
+    # R15.e: outside the per-instruction loop the function panics exactly when the length is not a multiple of 8
+    re_ = rep.rule("R15.e", "outside the per-instruction loop, to_insn_vec panics exactly when the length is not a multiple of the slot size", floor=1)
+    eve = symex.Evaluator(F)
+    PROG = ("obj", "PROG", "&[u8]")
+    outs = eve.run_fn(root, [PROG]) or []
+    ln = ("call", "len", (PROG,), 64)
+    notmult = T.cmp("ne", 64, T.op("urem", 64, ln, T.K(64, 8)), T.K(64, 0))
+    pan = []
+    for v, st in outs:
+        if not st.feasible:
+            continue
+        if (st.exit is not None and st.exit[0] == "panic") or any(e[0] == "call" and isinstance(e[1], str) and e[1].startswith("core::panicking") for e in st.effects):
+            cs = [models.canon(c, pcn, extra) for c in st.conds]
+            pan.append(sorted(T.show(c) for c in cs))
+    oke = pan == [[T.show(notmult)]] or pan == [[T.show(T.lnot(T.cmp("eq", 64, T.op("urem", 64, ln, T.K(64, 8)), T.K(64, 0))))]]
+    rep.ob(re_, "prelude", oke, "panicking paths of to_insn_vec outside the loop", expected=[[T.show(notmult)]], found=pan[:3])
     rep.trust("rustc front end / MIR / const-eval", "alloc::fmt formatting of integers", "byteorder decoding")
     rep.assume("rendered text vs assembler syntax is decided under C16")
 
